@@ -30,9 +30,13 @@ ResultOK(res, exp, text) ==
                  /\ Chk(C("JunkAddsAtMostItself"), Len(res.header[n]) <= Len(exp.header[n]) + JunkIn(text, n))
     /\ Chk(C("OtherText"), res.other = exp.other)
     /\ Chk(C("CustomSections"), res.custom = exp.custom)
+    /\ Chk(C("CustomUnderOwnTitle"), res.own_title)           \* the key of a non-standard section is its whole title
     /\ Chk(C("CurveNames"), [j \in DOMAIN res.curves |-> res.curves[j].m] = [j \in DOMAIN exp.curves |-> exp.curves[j].m])
     /\ Chk(C("Rectangular"), \A i, j \in DOMAIN res.curves : Len(res.curves[i].data) = Len(res.curves[j].data))
     /\ Chk(C("Data"), [j \in DOMAIN res.curves |-> res.curves[j].data] = [j \in DOMAIN exp.curves |-> exp.curves[j].data])
+    \* every curve is addressed by its own key, and column j of the stacked view las.data is curve j
+    /\ Chk(C("KeyAddressesOwnCurve"), res.keypos = [j \in DOMAIN res.curves |-> j])
+    /\ Chk(C("StackedColumns"), res.stack = [j \in DOMAIN res.curves |-> j])
 
 TRead == /\ Ev.op = "read" /\ done' = TRUE
          /\ Chk("Harness.LegalText", R!LegalText(Ev.text))
